@@ -59,7 +59,12 @@ def check_class(spec, mode, variant):
     t_samples = []
     single = '+single' in variant          # one recorded sample per list: no pair exists, every per-sample condition and 1x1 LMI does
 
+    samenames = '+samenames' in variant     # every sample point carries the same name: names are labels, never identities
+
     def setup(obj, samples):
+        if samenames:
+            for smp in samples:
+                smp.x.set_name('x')
         if spec.setup:
             spec.setup(obj, samples, mode)
         if hasattr(obj, 'T'):
@@ -69,7 +74,7 @@ def check_class(spec, mode, variant):
                 t_samples.append(s)
 
     residue = variant.endswith('+residue')
-    variant0 = variant.replace('+residue', '').replace('+single', '')
+    variant0 = variant.replace('+residue', '').replace('+single', '').replace('+samenames', '')
     with_stat = variant0 in ('stat-first', 'stat-last') or spec.stationary_always
     obj, rec, samples = run_class(spec.module, spec.cls, dict(kwargs), n_samples=1 if single else 3, with_stationary=with_stat,
                                   stationary_pos='first' if variant0 == 'stat-first' else 'last', setup=setup, residue=residue)
@@ -100,7 +105,8 @@ def check_class(spec, mode, variant):
         found = None
         t0 = time.time()
         last = None
-        for cond in active:
+        # (two documented conditions can coincide as formulas at a parameter corner: a call is matched first with the conditions not matched yet)
+        for cond in sorted(active, key=lambda c_: matched[c_.name]):
             if cond.lists != roles or (cond.kind == 'pair') != (call.kind == 'two'):
                 continue
             ok = True
@@ -202,7 +208,7 @@ def check_class(spec, mode, variant):
                           signature={'class': spec.cls, 'condition': cond.name, 'missing_pairs': 'all'}))
         else:
             obs.append(Ob(oid, 'unsat', 0, 'generated'))
-        if cond.order == 'unordered_with_diagonal' and not residue:
+        if cond.order == 'unordered_with_diagonal' and not residue and not samenames:
             # the pair helper never emits (i, i): the documented diagonal conditions must come from somewhere else
             diag = [g for g in rec.generated if g[1] is g[2]]
             t0 = time.time()
@@ -241,8 +247,8 @@ def check_class(spec, mode, variant):
 
 def variants_for(spec):
     if spec.needs_stationary:
-        return ['stat-first', 'stat-last', 'stat-auto', 'stat-last+residue', 'stat-last+single']
-    return ['plain', 'plain+residue', 'plain+single']
+        return ['stat-first', 'stat-last', 'stat-auto', 'stat-last+residue', 'stat-last+single', 'stat-last+samenames']
+    return ['plain', 'plain+residue', 'plain+single', 'plain+samenames']
 
 
 def check_all_classes(only=None):
